@@ -31,40 +31,40 @@ def identLen : List Char → Option Nat
   | [] => none
   | c :: r => if isIdStart c then some (1 + spanLen isWord r) else none
 
-/-- the body of a quoted string after the opening quote(s), lazily up to the first closing delimiter:
-    elements are one non-backslash character (for a one-quote string: also not the quote) or a backslash and one
-    non-newline character.  Returns the length consumed including the closing delimiter. -/
-def strBody (q : Char) (triple : Bool) : List Char → Option Nat
-  | [] => none
-  | c :: r =>
-    if triple then
-      match c, r with
-      | c, c2 :: c3 :: r3 =>
-        if c = q && c2 = q && c3 = q then some 3
-        else if c = '\\' then (if c2 = '\n' then none else (strBody q triple (c3 :: r3)).map (· + 2))
-        else (strBody q triple (c2 :: c3 :: r3)).map (· + 1)
-      | c, [c2] =>
-        if c = '\\' then (if c2 = '\n' then none else (strBody q triple []).map (· + 2))
-        else (strBody q triple [c2]).map (· + 1)
-      | c, [] => if c = '\\' then none else (strBody q triple []).map (· + 1)
-    else
-      if c = q then some 1
-      else if c = '\\' then
-        match r with
-        | [] => none
-        | c2 :: r2 => if c2 = '\n' then none else (strBody q triple r2).map (· + 2)
-      else (strBody q triple r).map (· + 1)
+/-- does the text start with three quote characters `q`? -/
+def startsTriple (q : Char) : List Char → Bool
+  | a :: b :: c :: _ => a = q && b = q && c = q
+  | _ => false
+
+/-- the body of a triple-quoted string `(?:[^\\]|\\.)*?` up to the first closing `qqq` (lazy): the elements are one
+    non-backslash character, or a backslash and one non-newline character (`esc` = the previous character was the
+    backslash of such a pair).  Returns the length consumed including the closing delimiter. -/
+def tripleBody (q : Char) : Bool → List Char → Option Nat
+  | _, [] => none
+  | true, c :: r => if c = '\n' then none else (tripleBody q false r).map (· + 1)
+  | false, c :: r =>
+    if startsTriple q (c :: r) then some 3
+    else if c = '\\' then (tripleBody q true r).map (· + 1)
+    else (tripleBody q false r).map (· + 1)
+
+/-- the body of a one-quote string `(?:[^q\\]|\\.)*?` up to the closing `q` -/
+def singleBody (q : Char) : Bool → List Char → Option Nat
+  | _, [] => none
+  | true, c :: r => if c = '\n' then none else (singleBody q false r).map (· + 1)
+  | false, c :: r =>
+    if c = q then some 1
+    else if c = '\\' then (singleBody q true r).map (· + 1)
+    else (singleBody q false r).map (· + 1)
 
 /-- a quoted string at the head (the four string alternatives of `expr3_re`, in their order): its length -/
 def stringLen : List Char → Option Nat
   | q :: r =>
     if q = '\'' || q = '"' then
-      let tripleM : Option Nat := match r with
-        | q2 :: q3 :: r3 => if q2 = q && q3 = q then (strBody q true r3).map (· + 3) else none
-        | _ => none
+      let tripleM : Option Nat :=
+        if startsTriple q (q :: r) then (tripleBody q false (r.drop 2)).map (· + 3) else none
       match tripleM with
       | some n => some n
-      | none => (strBody q false r).map (· + 1)
+      | none => (singleBody q false r).map (· + 1)
     else none
   | [] => none
 
